@@ -258,9 +258,9 @@ def snap(x, depth=0):
         return ["callable", getattr(x, "__module__", ""), getattr(x, "__qualname__", type(x).__name__)]
     if isinstance(x, range):
         return ["range", x.start, x.stop, x.step]
-    d = getattr(x, "__dict__", None)
-    if isinstance(d, dict):
-        return ["obj", type(x).__name__, [[k, snap(v, depth + 1)] for k, v in sorted(d.items())]]
+    # Instances of library classes (database objects, metric objects) are not "lists, arrays, Series, tables or
+    # option dictionaries": their private bookkeeping may change (a correct cache is legal).  What they do to later
+    # results is the history oracle's business, and the caller-owned containers they hold are snapshotted separately.
     return ["opaque", type(x).__name__]
 
 
